@@ -14,7 +14,7 @@ MUST_REACH = ["op-cancelled-while-blocked", "op-cancelled-at-entry", "op-complet
 def units(tier):
     quick = tier == "quick"
     us = []
-    B = 100 if quick else 1500
+    B = 240 if quick else 1500
 
     def add(name, **p):
         p.setdefault("T", 1)
@@ -29,10 +29,10 @@ def units(tier):
     add("D=2 pre_cancel=1", D=2, pre_cancel=1)
     add("D=2 pre_cancel=0 toggle", D=2, pre_cancel=0, toggle=(1, False), shields=(False, True))
     add("D=2 cancel=0 unshield-inner", D=2, cancel=0, toggle=(1, False), shields=(False, True), J=1)
-    add("D=3 cancel=0", D=3, cancel=0, J=1)
-    add("D=3 cancel=1", D=3, cancel=1, J=1)
-    add("D=3 cancel=0 unshield-mid", D=3, cancel=0, toggle=(1, False), shields=(False, True, False), J=1)
-    add("D=3 cancel=0 cancel2=1 mid-shielded", D=3, cancel=0, cancel2=1, shields=(False, True, True), toggle=(2, False), J=1, post0=True)
+    add("D=3 cancel=0", D=3, cancel=0, J=1, post0=quick)
+    add("D=3 cancel=1", D=3, cancel=1, J=1, post0=quick)
+    add("D=3 cancel=0 unshield-mid", D=3, cancel=0, toggle=(1, False), shields=(False, True, False), J=1, post0=quick)
+    add("D=3 cancel=0 cancel2=1 mid-shielded", D=3, cancel=0, cancel2=1, shields=(False, True, True), toggle=(2, False), J=0, post0=True)
     add("D=3 cancel=2 cancel2=0 outer-behind-shield", D=3, cancel=2, cancel2=0, J=1, post0=True)
     add("D=3 cancel=1 toggle-on-inner", D=3, cancel=1, toggle=(2, True), J=1, post0=True)
     if not quick:
